@@ -1556,3 +1556,70 @@ func sameCellReadTwice(p *ssa.BasicBlock, cond ssa.Value, b *ssa.BasicBlock, v s
 	}
 	return false
 }
+
+func init() {
+	register(&Rule{ID: "NX-1", Min: 4, Run: runNX1,
+		Doc: "a numeral the recogniser accepts is a Number, whatever its magnitude: among the functions NewNumber reaches inside internal/json, errors are made (fmt.Errorf / errors.New) only at the reviewed sites — the recogniser refusing a byte, the numeral ending early, and the two cannot-happen guards of the zero trimmers; every other error returned is a callee's error passed on — so no limit on the exponent, the number of digits or the value is imposed after the syntax was accepted (SA-N decides the syntax)"})
+}
+
+// nxReviewed: function -> number of error constructions in it, with the reason.
+var nxReviewed = map[string]struct {
+	n   int
+	why string
+}{
+	"internal/json.(*scanner).Scan":                                {2, "the automaton refused a byte; the numeral ended in a state that needs more bytes (both are SA-N's verdicts)"},
+	"internal/json.(*Number).trimLeadingZerosInTheIntegerPart":     {1, "guard exp < 0 || exp > len(nat): Scan sets exp = fraLen and nat of length intLen+fraLen padded by getNatural, so it cannot fire"},
+	"internal/json.(*Number).trimTrailingZerosInTheFractionalPart": {1, "same guard, same reason"},
+}
+
+func runNX1(c *load.Ctx, r *report.RuleResult) {
+	root := c.Func(pkgJSON, "NewNumber")
+	if root == nil {
+		r.Unk("anchor|json.NewNumber", "", "not found")
+		return
+	}
+	reach := reachableFrom(c, root)
+	counts := map[string]int{}
+	pos := map[string]string{}
+	for fn := range reach {
+		if load.FuncPkgRel(fn) != pkgJSON {
+			continue
+		}
+		for _, b := range fn.Blocks {
+			for _, ins := range b.Instrs {
+				call, ok := ins.(*ssa.Call)
+				if !ok {
+					continue
+				}
+				sc := call.Call.StaticCallee()
+				if sc == nil || sc.Pkg == nil {
+					continue
+				}
+				p := sc.Pkg.Pkg.Path()
+				if (p == "fmt" && sc.Name() == "Errorf") || (p == "errors" && sc.Name() == "New") {
+					k := load.FuncKey(fn)
+					counts[k]++
+					pos[k] = c.Pos(call.Pos())
+				}
+			}
+		}
+	}
+	for _, k := range sortedKeys(counts) {
+		key := "number-error|" + k
+		rev, ok := nxReviewed[k]
+		switch {
+		case !ok:
+			r.Bad(key, pos[k], fmt.Sprintf("%s makes an error of its own (%d site(s)) on the way from an accepted numeral to its Number: a numeral that RFC 8259 admits is refused for what it denotes (its magnitude, its length), not for its syntax", k, counts[k]))
+		case counts[k] != rev.n:
+			r.Bad(key, pos[k], fmt.Sprintf("%s makes %d errors of its own, %d were reviewed (%s)", k, counts[k], rev.n, rev.why))
+		default:
+			r.OK(key, pos[k], "reviewed: "+rev.why)
+		}
+	}
+	for k := range nxReviewed {
+		if counts[k] == 0 {
+			r.OK("number-error|"+k, "", "no error is made here any more")
+		}
+	}
+	r.OK("number-error|reach", c.Pos(root.Pos()), fmt.Sprintf("%d functions reachable from NewNumber examined", len(reach)))
+}
